@@ -93,7 +93,39 @@ NEXT_META = dict(
 # readers are positioned through the line-offset table: the table build / lookup / skip contracts of C14, claimed here too
 from contracts.C14 import BUILD_TABLE, FIND_CLOSEST, SKIP_LINES  # noqa: E402
 
-CONTRACTS = [BOUNDS, NEXT_META] + [dict(c, prop="C03") for c in (BUILD_TABLE, FIND_CLOSEST, SKIP_LINES)]
+# ------------------------------------------------------------------------------------------------ PartitionBulkIndexParamSource._init_internal_params
+PB = "PartitionBulkIndexParamSource."
+INIT_PARAMS = dict(
+    target="esrally/track/params.py::PartitionBulkIndexParamSource._init_internal_params",
+    prop="C03",
+    self_type="obj[PartitionBulkIndexParamSource]",
+    fields={PB + "partitions": "list[int]", PB + "total_partitions": "int", PB + "corpora": "any", PB + "batch_size": "int", PB + "bulk_size": "int", PB + "id_conflicts": "any",
+            PB + "conflict_probability": "any", PB + "on_conflict": "any", PB + "recency": "any", PB + "pipeline": "any", PB + "original_params": "any", PB + "create_reader": "any",
+            PB + "internal_params": "any", PB + "total_bulks": "int", PB + "ingest_percentage": "real"},
+    requires=["len(self.partitions) >= 1", "self.ingest_percentage >= 0 and self.ingest_percentage <= 100"],
+    externals={
+        # sorted(xs): assumed consequences of sorting a list of ints -- same length, first is the minimum and last the maximum of both lists
+        "sorted": dict(returns="list[int]", ensures=["len(result) == len(a0)", "forall(lambda j: implies(0 <= j and j < len(a0), result[0] <= a0[j] and a0[j] <= result[len(a0) - 1] and "
+                                                     "result[0] <= result[j] and result[j] <= result[len(a0) - 1]))"]),
+        "bulk_data_based": dict(event="reader", returns="any"),
+        "number_of_bulks": dict(event="count", returns="int", ensures=["result >= 0"]),
+    },
+    modifies=["self"],
+    ensures=[
+        # the bulks this worker will send are COUNTED with the same corpora, the same partition range and the same BULK size the reader chain is built with
+        # (batch size only says how many bulks are read ahead) -- otherwise the source stops before (or after) the reader is exhausted
+        "nev() == 2 and evk(0) == 'reader' and evk(1) == 'count'",
+        "eva(0, 1, 'int') == self.total_partitions and eva(0, 5, 'int') == self.batch_size and eva(0, 6, 'int') == self.bulk_size",
+        "eva(1, 1, 'any') == eva(0, 4, 'any') and eva(1, 2, 'int') == eva(0, 2, 'int') and eva(1, 3, 'int') == eva(0, 3, 'int') and eva(1, 4, 'int') == self.total_partitions and eva(1, 5, 'int') == self.bulk_size",
+        # partition range = [smallest, largest] client index of this worker
+        "forall(lambda j: implies(0 <= j and j < len(self.partitions), eva(0, 2, 'int') <= self.partitions[j] and self.partitions[j] <= eva(0, 3, 'int')))",
+        # ingest-percentage: the ceiling of that share of the bulks
+        "self.total_bulks >= 0 and real(self.total_bulks) >= eva(1, 0, 'int') * self.ingest_percentage / 100 and real(self.total_bulks) < eva(1, 0, 'int') * self.ingest_percentage / 100 + 1",
+    ],
+    cover=["return"],
+)
+
+CONTRACTS = [BOUNDS, NEXT_META, INIT_PARAMS] + [dict(c, prop="C03") for c in (BUILD_TABLE, FIND_CLOSEST, SKIP_LINES)]
 ASSUMPTIONS = [
     "float rounding model for bounds(): fl(x)=x(1+d), |d|<=2^-53, monotone, exact on integers up to 2^53; round() = round-half-even; total_docs <= 10^12, clients <= 2^20",
 ]
